@@ -212,9 +212,12 @@ func (p *packet) modifyParameters() (*modifyParameters, error) {
 		if len(modificationPacket.Children) < childModificationValues+1 {
 			return nil, fmt.Errorf("%s: missing modification values packet: %w", op, ErrInvalidParameter)
 		}
-		chg.Modification.Vals = make([]string, 0, len(modificationPacket.Children)-1)
-		for _, value := range modificationPacket.Children[1:] {
-			chg.Modification.Vals = append(chg.Modification.Vals, value.Data.String())
+		// the values are the children of the SET that follows the type: one
+		// element per value, each in its ber encoded form (see ConvertString)
+		valuesPacket := modificationPacket.Children[childModificationValues]
+		chg.Modification.Vals = make([]string, 0, len(valuesPacket.Children))
+		for _, value := range valuesPacket.Children {
+			chg.Modification.Vals = append(chg.Modification.Vals, string(value.Bytes()))
 		}
 
 		parameters.changes = append(parameters.changes, chg)
